@@ -451,6 +451,26 @@ fn main() {
                 continue;
             }
         };
+        // next-layer path with a verifying key that is not the proof's own common data: the
+        // commitment the relying party holds must be the one that ends up on the circuit inputs
+        if let Ok(ctx) = s.ctx() {
+            if let Ok(list) = ctx.foreign_key_probe(&h) {
+                for (ep, v) in list {
+                    let key = format!("{}:{ep}", s.name());
+                    if !ep.contains("+run") {
+                        continue;
+                    }
+                    rep.add(match v {
+                        kit::CircV::Accept => CaseResult::violated(
+                            key,
+                            "unconstrained/next-layer/verifying-key-commitment-not-the-callers",
+                            json!({"shape": s.name(), "entry_point": ep, "what": "honest proof + a verifying key differing in one commitment word: built, packed by the backend and run => accepted"}),
+                        ),
+                        other => CaseResult::held(key, true).count("foreign-verifying-key-rejected", 1).count(format!("foreign-verifying-key-rejected/{}", other.label().split(':').next().unwrap_or("")), 1),
+                    });
+                }
+            }
+        }
         let (lay, rs) = analyse(s.as_ref(), &h);
         if rs.iter().any(|r| matches!(r.verdict, Verdict::Inconclusive(_))) {
             complete = false;
